@@ -440,7 +440,14 @@ pub fn odd_path(r: &mut Rng) -> String {
     }
 }
 
-pub const DEP_PATTERNS: [&str; 26] = [
+pub const DEP_PATTERNS: [&str; 31] = [
+    // a ':' inside the pattern half - in a bracket set, a POSIX class, an
+    // alternation - is still a ':' (two colons in all: rejected)
+    "pkg-[0-9:]*",
+    "pkg-[[:digit:]]*",
+    "{a:b,c}-1",
+    "pkg-[:]",
+    "p[a:",
     // simple
     "foo-1.0",
     "foo",
@@ -593,7 +600,24 @@ const NAME_PARTS: [&str; 14] = [
     "foo", "lib", "p5", "py312", "nb", "nb3", "\u{e9}", "x_y", "1.0", "mysql", "Foo", "a+b", "9", "z.z",
 ];
 
+/// Names that mean something to pkg_install or to other tools when they
+/// occur in a package database directory; as *directories* holding the three
+/// mandatory files they are packages like any other.  (For the ones without a
+/// '-' only the listing and pkgname are compared, not the split.)
+pub const SPECIAL_DIR_NAMES: [&str; 10] = [
+    "pkg-vulnerabilities", "pkgdb.byfile.db", ".cookie", "lost+found", "CVS", ".git", "pkgdb-refcount.db", ".pkg-1.0",
+    "+CONTENTS-1.0", "pkg_install-20240101",
+];
+
 fn dir_name(r: &mut Rng) -> String {
+    if r.chance(1, 16) {
+        return r.pick(&SPECIAL_DIR_NAMES).to_string();
+    }
+    // several installed versions of one package, also versions that are equal
+    // in value and differ in spelling (each directory is its own package)
+    if r.chance(1, 10) {
+        return format!("{}-{}", r.pick(&["mktool", "py311-yaml", "libfoo"]), r.pick(&["1.3", "1.3.0", "1.3nb0", "1_3", "1.3pl", "6.0rc1", "6.0pre1", "1.3nb1", "1.4"]));
+    }
     let dashes = r.range(1, 4);
     let mut parts: Vec<String> = vec![];
     for _ in 0..dashes {
@@ -695,7 +719,7 @@ pub fn tree(r: &mut Rng, serial: &mut usize) -> Tree {
     let mut stray = vec![];
     if r.chance(1, 2) {
         for f in ["pkg-vulnerabilities", "pkgdb.byfile.db", "+COMMENT", "+CONTENTS", "+DESC", "empty"] {
-            if r.chance(1, 3) {
+            if r.chance(1, 3) && !used.iter().any(|u| u == f) {
                 *serial += 1;
                 let c = if f == "empty" { String::new() } else { format!("stray {f} #{serial}") };
                 stray.push((f.to_string(), c));
